@@ -519,6 +519,8 @@ func C36(c *Ctx) {
 			c.Decide(lsmOK, r2, key(fn, fmt.Sprintf("RemoveSegment[%d]#G-lsm", i+1)), s.Pos(), 2, "LSM guard present", "the watchdog removes a segment below the raft retain point without knowing that the LSM entries in it are flushed (no manifest log pointer / flushed-segment input)")
 		}
 	}
+	const r4 = "K11.flush-order"
+	flushOrderGroup(c, r4)
 	const r3 = "K2.can-remove-shape"
 	c.Rule(r3, "levelManager.canRemoveWalSegment returns false for id >= any raft group's Segment or SegmentIndex (operators >=), and true only after all pointers were examined")
 	if fn := c.Fn("lsm", "levelManager.canRemoveWalSegment"); fn != nil {
